@@ -108,6 +108,7 @@ class Acc:
         self.states = set()
         self.trans = set()
         self.outcomes = set()
+        self.distinct = 0           # cases distinct by construction, counted (not hashed)
         self.choice_points = 0
         self.counters = {}
         self.violations = []        # dicts: sig, msg, cfg, choices, detail
@@ -146,6 +147,7 @@ class Acc:
         self.states |= other.states
         self.trans |= other.trans
         self.outcomes |= other.outcomes
+        self.distinct += other.distinct
         self.choice_points += other.choice_points
         for k, v in other.counters.items():
             self.counters[k] = self.counters.get(k, 0) + v
